@@ -22,7 +22,7 @@ def jobs(tier):
                        note=f"{k}-qubit gate: the index arithmetic of the sparse multiply equals (U on the argument qubits, identity elsewhere), little-endian"))
     for shape in range(4):
         for size in ((3,) if q else (3, 4)):
-            for x, ov in (((0, -1), (4, 2)) if q else ((0, -1), (4, 2), (1, 5), (5, 0), (2, -1))):
+            for x, ov in (((0, -1), (4, 2)) if q else ((0, -1), (4, 2), (1, 5))):
                 for i in range(size - 1 if shape in (2, 3) else size):
                     out.append(CH(name=f"c03_state_s{shape}_n{size}_x{x}_ov{ov}_i{i}", base="c03_state", func=f"{H}:c03_state",
                                   params=[("j", "int"), ("k", "int"), ("n", "int")], pre=[f"0 <= j < {size}", f"0 <= k < {size}", "0 <= n <= 2"],
